@@ -15,6 +15,7 @@ mod c07;
 mod c18;
 mod c11;
 mod c12;
+mod c13;
 mod c15;
 mod c19;
 mod c20;
@@ -36,6 +37,7 @@ fn table() -> Vec<(&'static str, RunFn, RecheckFn)> {
         ("C11", c11::run, c11::recheck),
         ("C18", c18::run, c18::recheck),
         ("C12", c12::run, c12::recheck),
+        ("C13", c13::run, c13::recheck),
         ("C15", c15::run, c15::recheck),
         ("C19", c19::run, c19::recheck),
         ("C20", c20::run, c20::recheck),
